@@ -1,6 +1,7 @@
 """Doctests with by-construction outcomes (shared by C10 and C15)."""
 
-KINDS = ['pass', 'failout', 'failexc', 'allskip', 'partskip', 'expexc', 'disabled', 'comment']
+KINDS = ['pass', 'failout', 'failexc', 'allskip', 'partskip', 'expexc', 'disabled', 'comment',
+         'failcompile', 'faildirective', 'warnfail', 'warnpass']
 EXTRA_KINDS = ['ell', 'igws']      # outcome depends on a default directive (C15)
 
 # TR is replaced by a statement appending the doctest's name to a trace file
@@ -13,10 +14,16 @@ BODY = {
     'expexc': ['TR', '>>> 1/0', 'Traceback (most recent call last):', 'ZeroDivisionError: division by zero'],
     'disabled': ['>>> # DISABLE_DOCTEST', 'TR', '>>> 1/0'],
     'comment': ['>>> # nothing here'],
+    # fail before anything has been executed or logged (found when the first part is compiled / its directive parsed)
+    'failcompile': ['>>> return 5'],
+    'faildirective': ['>>> x = 1  # xdoctest: +REQUIRES(bogus)'],
+    # a recorded run-time warning together with a failure / a pass
+    'warnfail': ['TR', '>>> import warnings', '>>> warnings.warn("w-fail")', '>>> 1/0'],
+    'warnpass': ['TR', '>>> import warnings', '>>> warnings.warn("w-pass")', '>>> print("a")', 'a'],
     'ell': ['TR', '>>> print("abcdef")', 'ab...f'],
     'igws': ['TR', '>>> print("a b")', 'ab'],
 }
-RUNS_TR = {'pass', 'failout', 'failexc', 'partskip', 'expexc', 'ell', 'igws'}
+RUNS_TR = {'pass', 'failout', 'failexc', 'partskip', 'expexc', 'ell', 'igws', 'warnfail', 'warnpass'}
 
 
 def outcome(kind, opt=None, named=False):
@@ -27,7 +34,7 @@ def outcome(kind, opt=None, named=False):
         return 'skipped'
     if kind in ('allskip', 'comment'):
         return 'skipped'
-    if kind in ('failout', 'failexc', 'disabled'):
+    if kind in ('failout', 'failexc', 'disabled', 'failcompile', 'faildirective', 'warnfail'):
         return 'failed'
     if kind == 'ell':
         return 'failed' if opt == '-ELLIPSIS' else 'passed'
